@@ -12,6 +12,8 @@ structure DState where
   prog : List String := []      -- operations not yet started
   stale : Bool := false         -- the address the harness tracks belongs to the mapping released by a growing commit
   skipUnlock : Bool := false
+  total : Nat := 0              -- operations in the program
+  returns : Nat := 0            -- `returned` events seen: every one of them closes exactly one operation of the program
 deriving Inhabited
 
 def pcOfHook : String → Option Pc
@@ -58,14 +60,18 @@ def hooksWhileHeld : Nat → DState → Nat
     | some d' =>
       -- a refused finalize leaves the thread waiting for the executor to go away
       if d.s.pc == .fCommitted then 0
-      else (if d'.s.pc == .idle || d'.s.pc == .finalized then 0 else 1) + hooksWhileHeld fuel d'
+      -- reaching idle = the operation returned: the harness passes its `api.boundary` point there
+      else (if d'.s.pc == .finalized then 0 else 1) + hooksWhileHeld fuel d'
 
 def kv (ws : List String) (k : String) : Option String :=
   ws.findSome? fun w => match w.splitOn "=" with | [a, b] => if a == k then some b else none | _ => none
 
 def handle (d : DState) (ws : List String) : DState × String :=
   match ws with
-  | ["prog", ops] => ({ d with prog := ops.splitOn "," }, "= ok")
+  | ["prog", ops] => ({ d with prog := ops.splitOn ",", total := (ops.splitOn ",").length }, "= ok")
+  | "hook" :: "api.boundary" :: _ =>
+    -- between two API calls: the assembling thread is idle, nothing is locked by it
+    if d.s.pc == .idle && !d.s.writer then (d, s!"= ok writer=0 cur={curOf d} readers={d.s.readers}") else (d, s!"= stuck at={reprStr d.s.pc}")
   | "hook" :: name :: _ =>
     let name' := if name == "commit.done" then none else pcOfHook name
     let target : DState → Bool := fun x =>
@@ -82,10 +88,12 @@ def handle (d : DState) (ws : List String) : DState × String :=
         let d' := if d'.s.pc == .gSwapped then { d' with stale := true } else d'
         (d', s!"= ok writer={if d'.s.writer then 1 else 0} cur={curOf d'} readers={d'.s.readers}")
   | "returned" :: _ :: rest =>
-    match advance (fun x => x.s.pc == .idle) 3 d with
+    -- an operation that returned without passing any observation point (skipped, or returned early) has still to be performed by the model
+    let d0 := if d.s.pc == .idle && d.total - d.prog.length ≤ d.returns then asmMove d else some d
+    match d0.bind (advance (fun x => x.s.pc == .idle) 12) with
     | none => (d, "= stuck")
     | some d' =>
-      let d' := { d' with stale := false }
+      let d' := { d' with stale := false, returns := d.returns + 1 }
       let v := (kv rest "ver").bind (·.toNat?)
       (d', if v == some d'.s.done then s!"= ok ver={d'.s.done}" else s!"= mismatch model-ver={d'.s.done}")
   | "rlock" :: "granted-later" :: _ => ({ d with skipUnlock := true }, "= ok")
